@@ -93,7 +93,7 @@ HARNESS = r"""
 #ifdef HEX_CBMC
 int nondet_int(void); size_t nondet_size(void); _Bool nondet_bool(void); unsigned nondet_unsigned(void);
 
-void h_instrLen(void) { instrLen(nondet_int(), nondet_int(), nondet_int()); }
+void h_instrLen(void) { int cex_labelOffset = nondet_int(), cex_byteOffset = nondet_int(), cex_minLength = nondet_int(); instrLen(cex_labelOffset, cex_byteOffset, cex_minLength); }
 void h_numNibbles(void) { int cex_value = nondet_int(); numNibbles(cex_value); }
 
 /* ---------- ghost state of one pass ---------- */
@@ -470,9 +470,10 @@ def build_unit(chk, nb=4):
     en, _ = asmx.enums(m)
     fam, info = dirx.family(m)
     arith, hw = ctor_arith(m)
-    text = (PRELUDE + en + asmx.token_fns(m) + asmx.numNibbles(m) + dirx.instrLen(m) + fam + STATE + dirx.resolve_pass(m) + EMIT_STATE + dirx.emit_body(m) + dirx.list_body(m)
+    body = (en + asmx.token_fns(m) + asmx.numNibbles(m) + dirx.instrLen(m) + fam + STATE + dirx.resolve_pass(m) + EMIT_STATE + dirx.emit_body(m) + dirx.list_body(m)
             + HARNESS.replace("CTOR_SIZE_ARITH", arith).replace("HEADER_WORD", hw))
-    return chk.write("c05_unit.c", text)
+    protos, defs = hv.pull_helpers(PRELUDE + body, "hexasm.hpp", m)
+    return chk.write("c05_unit.c", PRELUDE + protos + body + defs)
 
 
 def native(chk):
@@ -560,7 +561,8 @@ def jobs_for(unit, tier, prefix="C05"):
     jobs = [
         J("numNibbles.contract", unit, "h_numNibbles", enforce="numNibbles", loop_contracts=asmx.NUMNIBBLES_LOOP_CONTRACT, unwind=None if asmx.NUMNIBBLES_LOOP_CONTRACT else 9,
           functions=["numNibbles"], role="aux", note="" if asmx.NUMNIBBLES_LOOP_CONTRACT else "counting loop has no recognised shape: unwound 9 times with unwinding assertions (complete: the loop is bounded by the operand width)"),
-        J("instrLen.contract", unit, "h_instrLen", enforce="instrLen", replace=["numNibbles"], loop_contracts=True, functions=["instrLen"], role="aux"),
+        J("instrLen.contract", unit, "h_instrLen", enforce="instrLen", replace=["numNibbles"], loop_contracts=dirx.INSTRLEN_LOOP_CONTRACT, unwind=None if dirx.INSTRLEN_LOOP_CONTRACT else 9,
+          functions=["instrLen"], role="aux", note="" if dirx.INSTRLEN_LOOP_CONTRACT else "growth loop has no recognised shape: unwound 9 times with unwinding assertions (lengths are at most 8)"),
         J("pass.ref.base", unit, "h_pass_ref_base", functions=["resolveLabels pass"], role="aux"),
         J("pass.ref.step", unit, "h_pass_ref_step", replace=["instrLen", "numNibbles"], object_bits=12, timeout=1500, stop_on_fail=True, functions=["resolveLabels pass body", "Directive family"], role="aux",
           note="inductive step over a directive list of symbolic length (<= 100000), ghost reference k / target t; callees replaced by their contracts"),
@@ -669,13 +671,19 @@ def main(chk, replay_file, pid=PID):
     # a failed contract of the length functions comes with an operand value: assemble programs whose reference has exactly
     # that operand on the real assembler
     for j, f in failed_aux:
-        if j.name != "numNibbles.contract" or chk.violations:
+        if j.name not in ("numNibbles.contract", "instrLen.contract") or chk.violations:
             continue
         try:
-            v = hv.parse_c_int(f.get("cex", {})["cex_value"])
+            cx = f.get("cex", {})
+            if j.name == "numNibbles.contract":
+                v = hv.parse_c_int(cx["cex_value"])
+                cand = sorted(set([v, -abs(v)]))
+            else:
+                dist = hv.parse_c_int(cx["cex_labelOffset"]) - hv.parse_c_int(cx["cex_byteOffset"])
+                cand = sorted(set([dist - k for k in range(1, 9)]))   # operand = distance - length, whatever length was chosen
         except (KeyError, ValueError):
             continue
-        for d in sorted(set([v, -abs(v)])):
+        for d in cand:
             if abs(d) > 790000:
                 continue
             rc, o, e, _ = hv.run([exe, "distance", str(d)], timeout=300)
@@ -685,7 +693,7 @@ def main(chk, replay_file, pid=PID):
                 continue
             bad = rr.get("bad_layout_or_reference", 0) + (rr.get("bad_listing_only", 0) if pid == "C17" else 0)
             if bad:
-                p = os.path.join(hv.OUTROOT, "replay", "%s-numNibbles_%d.S" % (pid, d))
+                p = os.path.join(hv.OUTROOT, "replay", "%s-%s_%d.S" % (pid, j.name.split(".")[0], d))
                 open(p, "w").write(rr.get("first_c05") or rr.get("first_c17") or "")
                 chk.add_violation("%s:%s" % (j.name, f["name"]), p, "%s; real hexasm with a reference operand of %d: %s" % (f["desc"], d, rr.get("why_c05") or rr.get("why_c17")), True)
                 break
